@@ -7,7 +7,7 @@ package c09
 // bytes reported <= bytes handed over, heap allocated <= bound(len(this input)) -
 // so whatever an earlier decode left in the receiver (lists, scripts, capacity)
 // must not make a later decode crash, over-report or allocate out of proportion
-// to ITS input. Receivers are primed with large valid inputs (300 / 70000
+// to ITS input. Receivers are primed with large valid inputs (300 / 40000
 // elements, stored as a count) in part of the cases.
 
 import (
@@ -17,6 +17,8 @@ import (
 	"errors"
 	"fmt"
 	"io"
+	"runtime"
+	"runtime/debug"
 	"strings"
 	"testing"
 	"testing/iotest"
@@ -296,6 +298,15 @@ func checkReuse(ctx *pbt.Ctx, c Reuse) error {
 		ctx.Discard("invalid case: family / steps")
 		return nil
 	}
+	for _, s := range c.Steps {
+		if s.Big > 10000 {
+			// large inputs: collect garbage at the default pace (pbt.Main runs shards at
+			// 400 %) so that the shard stays far below the driver's address-space limit
+			old := debug.SetGCPercent(100)
+			defer func() { debug.SetGCPercent(old); runtime.GC() }()
+			break
+		}
+	}
 	inputs := make([][]byte, len(c.Steps))
 	var key [][]byte
 	for i, s := range c.Steps {
@@ -427,11 +438,11 @@ func genReuse(t *rapid.T) Reuse {
 	c := Reuse{Family: fam}
 	es := families[fam]
 	n := rapid.IntRange(2, 6).Draw(t, "nsteps")
-	// prime the receiver with a large valid decode in 1 of 6 cases (70000 elements in 1 of 240)
+	// prime the receiver with a large valid decode in 1 of 6 cases (40000 elements in 1 of 240)
 	if fam != "varint" && rapid.IntRange(0, 5).Draw(t, "prime") == 0 {
 		big := 300
 		if rapid.IntRange(0, 39).Draw(t, "prime_huge") == 0 {
-			big = 70000
+			big = 40000
 		}
 		c.Steps = append(c.Steps, Step{Entry: rapid.SampledFrom(es).Draw(t, "prime_entry"), Big: big, Note: "prime"})
 	}
